@@ -32,7 +32,7 @@ pub fn ofail(ctx: &mut Ctx, key: &str, what: &str, detail: serde_json::Value) {
         1
     } else if key.starts_with("prover-fails") || key.starts_with("prover-garbage") {
         2
-    } else if key.starts_with("sets:dup-accepted") || key.starts_with("sets:spurious-error") {
+    } else if key.starts_with("sets:dup-accepted") || key.starts_with("sets:spurious-error") || key.starts_with("dup-") {
         3
     } else if key.starts_with("verifier-panics") {
         4
@@ -87,6 +87,7 @@ fn main() {
         }
     }
     cases::shape_mismatch(&mut ctx, &mut rng, 500);
+    cases::dup_cases(&mut ctx, &mut rng, 600);
     for b in cases::probe_bases(&mut rng) {
         salt += 1;
         if let Some(p) = open::prove_base(&mut ctx, &b, salt, 1, &mut rng) {
